@@ -2,7 +2,8 @@
   Adapter/ResPool.lean — C09, component `respool`: the resurrector over the real watermark pool
   and serial Thrift transport (Model/ResChain.lean), observed at quiescence after every operation.
 
-  cfg:  <init µs> <max µs> ( w0 w1 … )     as for `resurrector`
+  cfg:  <init µs> <max µs> ( w0 w1 … ) <lo> <hi>     the first three as for `resurrector`;
+        lo = the pool's min_watermark, hi = its max_watermark (Int.MaxValue when not configured)
   ops:  open | req reply/eof | reach up/down | tick d | close
         (an optional trailing list of naturals is the schedule of the operation's tasks; the
          harness sends none: gevent's FIFO order.  The theorems hold for every schedule.)
@@ -12,8 +13,18 @@ import ScalesModel.Core.Run
 import ScalesModel.Model.ResChain
 import ScalesModel.Adapter.Resurrector
 namespace Scales.Pool
-open Scales.Res (ChSt Ar Par Cfg nextWait)
+open Scales.Res (ChSt Ar Par nextWait)
 open Scales.Chain
+
+/-- the resurrector's configuration and the pool's watermarks -/
+structure Cfg where
+  r : Res.Cfg
+  w : WM
+  deriving Repr, DecidableEq
+
+abbrev Cfg.par (c : Cfg) : Par := c.r.par
+abbrev Cfg.maxW (c : Cfg) : Nat := c.r.maxW
+abbrev Cfg.init (c : Cfg) : Nat := c.r.init
 
 inductive Op where
   | opn (sched : List Nat)
@@ -26,17 +37,23 @@ inductive Op where
 /-- the quiescent states of the chain -/
 inductive Mode where
   | idle      -- never opened
-  | up        -- pool open, one cached transport with an open socket, both subscriptions in place
+  | up        -- pool open and subscribed to; min_watermark ≥ 1: one cached transport with an open
+              -- socket, subscribed to; min_watermark = 0: no transport, nothing cached, size 0
   | down      -- fail-fast mode, retry greenlet asleep
   | shutU     -- closed while up
   | shutD     -- closed while down
   deriving Repr, DecidableEq, Inhabited
 
-def canon (m : Mode) (reach : Bool) : C :=
+def canon (w : WM) (m : Mode) (reach : Bool) : C :=
   match m with
   | .idle => { reach := reach }
-  | .up => { reach := reach, rNext := true, rSub := true, pSt := .opened, pSize := 1, pCache := true,
-             pAr := .ok, pG := .done, tSt := .opened, tSub := true, tAr := .ok }
+  | .up =>
+    if 1 ≤ w.lo then
+      { reach := reach, rNext := true, rSub := true, pSt := .opened, pSize := 1, pCache := true,
+        pAr := .ok, pG := .done, tSt := .opened, tSub := true, tAr := .ok }
+    else
+      { reach := reach, rNext := true, rSub := true, pSt := .opened, pSize := 0, pCache := false,
+        pAr := .ok, pG := .done, tSt := .closed, tSub := false, tAr := .none }
   | .down => { reach := reach, rDown := true, rRes := .sleeping, pSt := .closed, tSt := .closed,
                pAr := .fail, pG := .done }
   | .shutU => { reach := reach, rNext := true, pSt := .closed, tSt := .closed, pSize := 1, pCache := true,
@@ -44,12 +61,13 @@ def canon (m : Mode) (reach : Bool) : C :=
   | .shutD => { reach := reach, pSt := .closed, tSt := .closed, pAr := .fail, pG := .done }
 
 /-- which quiescent state a finished run is in (`none`: not quiescent, or not one of them) -/
-def classify (c : C) : Option Mode :=
-  if c.tasks ≠ [] ∨ c.uncovered then none
+def classify (w : WM) (c : C) : Option Mode :=
+  if c.tasks ≠ [] ∨ c.uncovered ∨ c.qG ≠ none then none
   else if c.rRes = .sleeping ∧ c.rDown ∧ ¬c.rNext ∧ ¬c.rSub ∧ c.tSt ≠ .opened then some .down
   else if c.rRes ≠ .none ∨ c.rDown then none
   else if c.rNext then
-    if c.rSub ∧ c.pSt = .opened ∧ c.pCache ∧ c.tSt = .opened ∧ c.tSub ∧ c.pSize = 1 then some .up
+    if c.rSub ∧ c.pSt = .opened ∧ 1 ≤ w.lo ∧ c.pCache ∧ c.tSt = .opened ∧ c.tSub ∧ c.pSize = 1 then some .up
+    else if c.rSub ∧ c.pSt = .opened ∧ w.lo = 0 ∧ ¬c.pCache ∧ c.tSt = .closed ∧ ¬c.tSub ∧ c.pSize = 0 then some .up
     else if ¬c.rSub ∧ c.pSt = .closed ∧ c.tSt ≠ .opened then some .shutU
     else none
   else if c.rSub then none
@@ -69,32 +87,32 @@ structure St where
   deriving Repr, DecidableEq
 
 /-- run the operation's tasks: the given schedule first, then FIFO -/
-def drain (c : C) (sched : List Nat) : C := runFIFO (run c sched) fuel
+def drain (w : WM) (c : C) (sched : List Nat) : C := runFIFO w (run w c sched) fuel
 
 /-- take over the result of a run (`dp` pools were created, the clock advanced by `dt` before it);
     read the retry greenlet's new sleep, if it entered one -/
-def settle (p : Par) (s : St) (c : C) (dp dt : Nat) : St :=
+def settle (p : Par) (w : WM) (s : St) (c : C) (dp dt : Nat) : St :=
   let now := s.now + dt
-  let s := { s with last := c, mode := classify c, ups := s.ups + c.ups, pools := s.pools + dp, now := now }
+  let s := { s with last := c, mode := classify w c, ups := s.ups + c.ups, pools := s.pools + dp, now := now }
   match c.slp with
   | .fresh => { s with wait := p.init, wakeAt := now + p.init }
   | .backoff => { s with wait := nextWait p s.wait, wakeAt := now + nextWait p s.wait }
   | .none => s
 
-def stepSt (p : Par) (s : St) : Op → St
+def stepSt (p : Par) (w : WM) (s : St) : Op → St
   | .reach up => { s with reach := up, last := { begin s.last with reach := up } }
   | op =>
     match s.mode with
     | none => s
     | some m =>
-      let c := canon m s.reach
+      let c := canon w m s.reach
       match op with
-      | .opn sched => settle p s (drain (opOpen c) sched) (if c.rNext then 0 else 1) 0
-      | .req eof sched => settle p s (drain (opReq c eof) sched) 0 0
+      | .opn sched => settle p w s (drain w (opOpen c) sched) (if c.rNext then 0 else 1) 0
+      | .req eof sched => settle p w s (drain w (opReq c eof) sched) 0 0
       | .tick d sched =>
-        if m = .down ∧ s.wakeAt ≤ s.now + d then settle p s (drain (opWake c) sched) 1 d
+        if m = .down ∧ s.wakeAt ≤ s.now + d then settle p w s (drain w (opWake c) sched) 1 d
         else { s with now := s.now + d, last := begin s.last }
-      | .close sched => settle p s (drain (opClose c) sched) 0 0
+      | .close sched => settle p w s (drain w (opClose c) sched) 0 0
       | .reach _ => s
 
 inductive ResView where
@@ -131,10 +149,14 @@ def obsOf (s : St) : Obs :=
     quiet := s.mode.isSome }
 
 def step (cfg : Cfg) (s : St) (op : Op) : St × Obs :=
-  let s' := stepSt cfg.par s op
+  let s' := stepSt cfg.par cfg.w s op
   (s', obsOf s')
 
 /-! ### codecs -/
+
+def decCfg : List V → Option Cfg
+  | [i, m, t, lo, hi] => do pure ⟨⟨← i.nat?, ← m.nat?, ← t.natList?⟩, ⟨← lo.nat?, ← hi.nat?⟩⟩
+  | _ => none
 
 def decSched : List V → Option (List Nat)
   | [] => some []
@@ -156,12 +178,14 @@ def encResp : RespK → V
   | .ok => .a "ok"
   | .err => .a "err"
   | .ff => .a "ff"
+  | .pending => .a "pending"
 
 def decResp : V → Option RespK
   | .a "none" => some .none
   | .a "ok" => some .ok
   | .a "err" => some .err
   | .a "ff" => some .ff
+  | .a "pending" => some .pending
   | _ => none
 
 def encRes : ResView → V
@@ -193,7 +217,9 @@ def decObs : V → Option Obs
 
   Judged from the environment's inputs (reachability at each connect, the peer closing a
   connection instead of answering, clock, close) and from what the client did (connect attempts,
-  the answer to each request) — nothing of the client's internal state:
+  the answer to each request) — nothing of the client's internal state, and nothing of the pool's
+  configuration (whether a request travels on a kept connection or opens its own is read off the
+  connect attempts it caused):
 
   * `failfast`       once a connect was refused or the connection broke, and until a connect
                      succeeds, every request is answered FailedFast and causes no connect;
@@ -201,7 +227,9 @@ def decObs : V → Option Obs
                      and larger than the delay before the previous one (equal once at the maximum);
   * `not-recovered`  still failing fast although the endpoint has been reachable for a full
                      maximum interval since the last failed attempt;
-  * `not-resumed`    with an established connection and an answering peer a request succeeds;
+  * `not-resumed`    after a successful connect (and no refused connect or broken connection
+                     since) a request to an answering peer succeeds — unless the connect it made
+                     itself was refused, which is the endpoint going down;
   * `connect-after-close`  no connect attempt once closed.
 -/
 
@@ -211,12 +239,12 @@ structure PS where
   reachSince : Nat := 0
   closed : Bool := false
   connDown : Bool := false      -- last connect refused / connection broken, no connect succeeded since
-  established : Bool := false   -- a connect succeeded and that connection has not broken
+  established : Bool := false   -- a connect succeeded; no connect refused, no connection broken since
   lastEnd : Nat := 0
   lastDelay : Option Nat := none
   deriving Repr, DecidableEq
 
-def specStep (c : Cfg) (a : PS) (idx : Nat) (op : Op) (o : Obs) : Verdict × PS :=
+def specStep (c : Res.Cfg) (a : PS) (idx : Nat) (op : Op) (o : Obs) : Verdict × PS :=
   if o.quiet = false then (.fail "not-quiescent" [V.ofNat idx], a) else
   if a.closed then
     if 0 < o.connects then (.fail "connect-after-close" [V.ofNat idx, V.ofNat o.connects], a)
@@ -237,7 +265,10 @@ def specStep (c : Cfg) (a : PS) (idx : Nat) (op : Op) (o : Obs) : Verdict × PS 
         (.fail "not-recovered" [V.ofNat idx, V.ofNat a.now, V.ofNat (max a.reachSince a.lastEnd)], a)
       else (.ok, a)
     else if a.established then
-      if eof then
+      if 0 < o.connects ∧ a.reach = false then
+        -- the request opened its own connection and was refused
+        (.ok, { a with connDown := true, established := false, lastEnd := a.now, lastDelay := none })
+      else if eof then
         (.ok, { a with connDown := true, established := false, lastEnd := a.now, lastDelay := none })
       else if o.resp ≠ .ok then (.fail "not-resumed" [V.ofNat idx, encResp o.resp], a)
       else (.ok, a)
@@ -258,17 +289,18 @@ def specStep (c : Cfg) (a : PS) (idx : Nat) (op : Op) (o : Obs) : Verdict × PS 
   | .reach up => (.ok, { a with reach := up, reachSince := a.now })
   | .close _ => (.ok, { a with closed := true })
 
-def specGo (c : Cfg) (a : PS) (idx : Nat) : List (Op × Obs) → Verdict
+def specGo (c : Res.Cfg) (a : PS) (idx : Nat) : List (Op × Obs) → Verdict
   | [] => .ok
   | (op, o) :: rest =>
     match specStep c a idx op o with
     | (.ok, a') => specGo c a' (idx + 1) rest
     | (f, _) => f
 
-def spec (c : Cfg) (h : List (Op × Obs)) : Verdict := specGo c {} 0 h
+def spec (c : Cfg) (h : List (Op × Obs)) : Verdict := specGo c.r {} 0 h
 
 /-! ### hypotheses: the channel is opened once, first, and closed at most once; traffic only
-    between the two; the clock does not jump over the retry greenlet's wake instant -/
+    between the two; the clock does not jump over the retry greenlet's wake instant; the pool may
+    hold at least one transport (`max_watermark ≥ 1`; with 0 every request is queued for ever) -/
 
 def opOk (s : St) (opened closed : Bool) : Op → Bool
   | .opn _ => !opened && !closed
@@ -285,20 +317,22 @@ def isClose : Op → Bool
   | .close _ => true
   | _ => false
 
-def wfGo (p : Par) (s : St) (opened closed : Bool) : List Op → Bool
+def wfGo (p : Par) (w : WM) (s : St) (opened closed : Bool) : List Op → Bool
   | [] => true
   | op :: ops =>
     opOk s opened closed op &&
-    wfGo p (stepSt p s op) (opened || isOpn op) (closed || isClose op) ops
+    wfGo p w (stepSt p w s op) (opened || isOpn op) (closed || isClose op) ops
+
+def cfgWF (c : Cfg) : Bool := Res.cfgWF c.r && decide (1 ≤ c.w.hi)
 
 def comp : TComp Cfg St Op Obs where
-  decCfg := Res.decCfg
+  decCfg := decCfg
   init := fun _ => {}
   decOp := decOp
   step := step
   encObs := encObs
   decObs := decObs
   spec := spec
-  wf := fun c ops => Res.cfgWF c && wfGo c.par {} false false ops
+  wf := fun c ops => cfgWF c && wfGo c.par c.w {} false false ops
 
 end Scales.Pool
